@@ -62,49 +62,66 @@ type parseResult struct {
 	Panic    *caught
 }
 
-// parseStream parses a token stream the way Channel.tryParsePackage does: token byte,
-// LookupPackage, LastPkg with the previously passed-on package, ReadFrom on a real
-// PacketQueue holding the bytes in one packet with the EOM bit.
-func parseStream(stream []byte, guard bool) (res parseResult) {
-	q := &recQ{PacketQueue: tds.NewPacketQueue(func() int { return 512 }), guard: guard}
-	hl := 8 + len(stream)
+// sim does what a Channel does with the packets it is handed (WritePacket,
+// tryParsePackage, handleSpecialPackage) on a real PacketQueue of its own: token byte,
+// LookupPackage, LastPkg with the previously passed-on package, ReadFrom; a package
+// that cannot be parsed for lack of bytes is rolled back and waits for the next
+// packet, unless the end of the message has been reached (then the queue is reset).
+type sim struct {
+	rest  []byte // unparsed bytes kept for the next packet
+	eom   bool   // an EOM packet was queued since the last reset
+	last  tds.Package
+	guard bool
+	res   parseResult
+}
+
+// packet feeds one packet body. It returns the panic of the library, if any.
+func (s *sim) packet(data []byte, eom bool) *caught {
+	all := append(append([]byte{}, s.rest...), data...)
+	q := &recQ{PacketQueue: tds.NewPacketQueue(func() int { return 512 }), guard: s.guard}
+	hl := 8 + len(all)
 	if hl > 0xffff {
 		hl = 0xffff
 	}
-	q.AddPacket(&tds.Packet{Header: tds.PacketHeader{MsgType: tds.TDS_BUF_RESPONSE, Status: tds.TDS_BUFSTAT_EOM, Length: uint16(hl)}, Data: stream})
-	res.Outcome = "parsed-all"
-	res.Panic = try(func() {
-		var last tds.Package
+	st := tds.PacketHeaderStatus(0)
+	s.eom = s.eom || eom
+	if s.eom {
+		st = tds.TDS_BUFSTAT_EOM
+	}
+	q.AddPacket(&tds.Packet{Header: tds.PacketHeader{MsgType: tds.TDS_BUF_RESPONSE, Status: st, Length: uint16(hl)}, Data: all})
+	good := 0 // offset behind the last package parsed completely
+	s.res.Outcome = "parsed-all"
+	c := try(func() {
 		for !q.AllPacketsConsumed() {
 			tok, err := q.Byte()
 			if err != nil {
-				res.Outcome = "not-enough-bytes"
+				s.res.Outcome = "not-enough-bytes"
 				return
 			}
-			res.LastTok = tok
+			s.res.LastTok = tok
 			pkg, err := tds.LookupPackage(tds.Token(tok))
 			if err != nil {
-				res.Outcome = "error"
+				s.res.Outcome = "error"
 				return
 			}
 			if tl, ok := pkg.(*tds.TokenlessPackage); ok {
 				tl.Data.WriteByte(tok)
 			}
 			if acc, ok := pkg.(tds.LastPkgAcceptor); ok {
-				if err := acc.LastPkg(last); err != nil {
-					res.Outcome = "lastpkg-error"
+				if err := acc.LastPkg(s.last); err != nil {
+					s.res.Outcome = "lastpkg-error"
 					return
 				}
 			}
 			if err := pkg.ReadFrom(q); err != nil {
 				if errors.Is(err, tds.ErrNotEnoughBytes) {
-					res.Outcome = "not-enough-bytes"
+					s.res.Outcome = "not-enough-bytes"
 				} else {
-					res.Outcome = "error"
+					s.res.Outcome = "error"
 				}
 				return
 			}
-			res.Packages++
+			s.res.Packages++
 			// handleSpecialPackage: environment changes and informational EEDs are
 			// not passed on and do not become the last package
 			pass := true
@@ -115,14 +132,41 @@ func parseStream(stream []byte, guard bool) (res parseResult) {
 				pass = p.Status&tds.TDS_EED_INFO != tds.TDS_EED_INFO
 			}
 			if pass {
-				last = pkg
+				s.last = pkg
+			}
+			if ip, id := q.Position(); ip == 0 {
+				good = id
+			} else {
+				good = len(all)
 			}
 			q.DiscardUntilCurrentPosition()
 		}
 	})
-	res.MaxN = q.maxN
-	res.Consumed = res.Panic == nil && q.AllPacketsConsumed()
-	return res
+	if q.maxN > s.res.MaxN {
+		s.res.MaxN = q.maxN
+	}
+	s.res.Consumed = c == nil && good == len(all)
+	if c != nil {
+		s.res.Panic = c
+		s.rest = nil
+		return c
+	}
+	if q.IsEOM() {
+		// everything was read (or a read ran into the end) and the message is
+		// complete: WritePacket resets the queue
+		s.rest, s.eom = nil, false
+	} else {
+		// roll back behind the last complete package
+		s.rest = all[good:]
+	}
+	return nil
+}
+
+// parseStream parses a token stream held by one packet with the EOM bit.
+func parseStream(stream []byte, guard bool) parseResult {
+	s := &sim{guard: guard}
+	s.packet(stream, true)
+	return s.res
 }
 
 // ---- is PacketQueue.Bytes safe to call with huge lengths?
